@@ -32,6 +32,7 @@ def run(ctx):
     ctx.undecided = ("multiset equality of the emitted pairs over all interleavings (value-level); that probe() stores all but the first match and returns the first; the drain-then-enumerate "
                      "path (NewTickJoinIter) equals the incremental path")
     c = mir.load_crate("dfir_pipes")
+    tickdrain_rule(ctx, c)
     impls = [i for i in c.impls_of_trait("pull::Pull") if "symmetric_hash_join::SymmetricHashJoin<" in i["self"]]
     R = ctx.rule("C13.wiring", "each side's items are built into their own state and probed against the other state, only when newly built", floor=2)
     RD = ctx.rule("C13.drain", "stored matches of both states are popped before any upstream is polled, and a popped match is returned", floor=2)
@@ -198,3 +199,38 @@ def _payload_source(b, org, local, depth=0):
                     if didx == "term" and t["k"] == "call" and t.get("f") and t["f"]["name"] in ("probe", "pop_match"):
                         return (t["f"]["name"], state_of(org, b, op_place(t["a"][0])), comp)
     return None
+
+
+def tickdrain_rule(ctx, c):
+    """At the start of a tick the join drains both inputs into their states (`drain_pull_into_state`) before it emits anything. 'Pairs exactly once for every
+    interleaving, including pending steps' needs that drain to finish only when the input has *ended*: its future answers Poll::Ready(()) only on the Ended arm of
+    the pull result, and a Pending step is passed on as Poll::Pending (the rest of the tick's items arrive after the wake-up)."""
+    R = ctx.rule("C13.tickdrain", "drain_pull_into_state completes only on the Ended arm of the input's pull; a Pending step yields Poll::Pending", floor=1)
+    bs = [b for n, b in c.bodies.items() if "symmetric_hash_join::drain_pull_into_state::{closure" in n and b.kind != "Promoted"
+          and any((t.get("f") or {}).get("name") == "pull" for _bb, t in b.calls())]
+    if not bs:
+        ctx.anchor_missing(R, "drain_pull_into_state's poll closure")
+        return
+    for b in bs:
+        key = "dfir_pipes|" + fn_key(c, b)
+        ended = variant_edges_by_place(b, "Ended")
+        pending = variant_edges_by_place(b, "Pending")
+        ended_t = set(x for v in ended.values() for x in v)
+        pending_t = set(x for v in pending.values() for x in v)
+        ready_ret = []
+        pending_ret = []
+        for bb, i, lhs, rv in b.assignments():
+            if lhs == 0 and rv["k"] == "agg" and (rv.get("adt") or {}).get("def", "").endswith("task::poll::Poll") and not b.is_cleanup(bb):
+                (ready_ret if rv["adt"].get("variant") == "Ready" else pending_ret).append(bb)
+        ctx.inst(R, key, sites=len(ready_ret) + len(pending_ret), sample={"ended_targets": sorted(ended_t), "pending_targets": sorted(pending_t), "ready_returns": ready_ret, "pending_returns": pending_ret})
+        if not ended_t or not ready_ret:
+            ctx.violation(R, key + "|no-ended-arm", "the drain does not distinguish the Ended answer of its input (no Ended arm or no Poll::Ready return)", b.loc())
+            continue
+        for rb in ready_ret:
+            if not any(b.dominates(e, rb) for e in ended_t):
+                ctx.violation(R, key + "|completes-without-ended", "the drain's future can complete (Poll::Ready) on a path that does not come from the Ended arm of the input's pull - a Pending step "
+                              "ends the drain, later items of the tick are neither stored nor joined", b.loc(rb))
+        for pt in pending_t:
+            ok, w = b.all_paths_pass(set(pending_ret), set(b.returns()), start=pt)
+            if not pending_ret or not ok:
+                ctx.violation(R, key + "|pending-not-propagated", "a Pending step of the input does not make the drain's future return Poll::Pending", b.loc(pt))
